@@ -126,6 +126,9 @@ class ServerHarness:
         self.transports = []
         self.eio.start_service_task = False
         self.swallowed = []     # exceptions engine.io contained and logged
+        self.framing = {}       # eio sid -> 'ws' | 'polling' (None: not
+        #                         emulated)
+        self.framing_lost = []
         self.eio.logger = _RecLogger(self)
         self.eio.start_background_task = self._start_bg
         if not aio:
@@ -227,6 +230,26 @@ class ServerHarness:
             self.settle()
         return True
 
+    def close_then(self, eio_sid, frames):
+        """One polling payload: an engine.io CLOSE followed by further
+        MESSAGE packets.  engine.io processes the CLOSE (which reports the
+        disconnect) and still hands the rest of the payload to the same
+        socket object."""
+        s = self.eio.sockets.get(eio_sid)
+        if s is None or s.closed:
+            return False
+        self.do(s.receive(self.eio_packet.Packet(self.eio_packet.CLOSE)))
+        if self.bg_mode == 'inline':
+            self.settle()
+        for f in frames:
+            self.do(s.receive(self.eio_packet.Packet(
+                self.eio_packet.MESSAGE, f)))
+            if self.bg_mode == 'inline':
+                self.settle()
+        if s.closed and eio_sid in self.eio.sockets:
+            del self.eio.sockets[eio_sid]
+        return True
+
     def drain(self, eio_sid):
         """All engine.io packets queued for the transport, oldest first, as
         (type, data)."""
@@ -246,6 +269,17 @@ class ServerHarness:
                 break
             if p is None:
                 continue
+            fr = self.framing.get(eio_sid)
+            if fr is not None:
+                # what the transport's writer does with the packet object:
+                # websocket sends encode(b64=False), a polling response
+                # joins encode(b64=True) strings
+                enc = p.encode(b64=(fr == 'polling'))
+                if fr == 'polling' and not isinstance(enc, str):
+                    # the payload cannot be built (TypeError in engine.io):
+                    # the packets of this response are lost
+                    self.framing_lost.append((eio_sid, p.packet_type))
+                    continue
             out.append((p.packet_type, p.data))
         return out
 
